@@ -209,17 +209,23 @@ class ShapelyBoundary(BoundaryDomain):
         volume = self.domain.polygon.boundary.length
         return torch.tensor(volume, device=device).reshape(-1, 1)
 
+    def _compute_number_of_points(self, n, d, params):
+        # a density refers to the length of the boundary, not to the area of the polygon
+        if d:
+            n = self.compute_n_from_density(d, params)
+        return n * self.len_of_params(params)
+
     def sample_random_uniform(
         self, n=None, d=None, params=Points.empty(), device="cpu"
     ):
-        n = self.domain._compute_number_of_points(n, d, params)
+        n = self._compute_number_of_points(n, d, params)
         line_points = torch.rand(n, device=device) * self.domain.polygon.boundary.length
         return self._transform_points_to_boundary(
             n, torch.sort(line_points).values, device
         )
 
     def sample_grid(self, n=None, d=None, params=Points.empty(), device="cpu"):
-        n = self.domain._compute_number_of_points(n, d, params)
+        n = self._compute_number_of_points(n, d, params)
         line_points = torch.linspace(
             0, self.domain.polygon.boundary.length, n + 1, device=device
         )[:-1]
